@@ -1,5 +1,9 @@
 # property id -> claim text (filled as checks are admitted; everything else is listed under NA with the reason)
 CLAIMS = {
+ 'C17': {'technique': 'static analysis: symbolic byte-count evaluation of the String codec, bounded-scan and sticky-status path rules on the reader',
+         'text': 'Decides only the serialisation clause of C17: String::Flatten writes FlattenedSize() == Length()+1 bytes from Cstr(); ReadCString scans inside the available bytes and flags a missing terminator '
+                 'through the sticky status, which String::Unflatten consults before returning OK (unterminated input is rejected). All in-memory string operations, the small-buffer boundary and aliasing are not decided.',
+         'note': 'Narrow: one sentence of the property.'},
  'C01': {'technique': 'static analysis: symbolic byte-count evaluation (abstract interpretation of the serialisers over the resolved AST into polynomials), reader/writer shape comparison, switch-table agreement, sticky-status path rule',
          'text': 'Decides the size/shape half of C01 for every constructible Message at once: bytes written by Flatten equal FlattenedSize as symbolic normal forms for all 14 concrete array classes, all 12 flattenable '
                  'single-item type codes and Message/String/ByteBuffer/Point/Rect; each reader consumes the wire shape its writer produces; single-item and array codec of a type agree; the type-code tables agree; '
@@ -80,6 +84,6 @@ CLAIMS = {
          'note': 'Assumes const methods with by-value/const-ref parameters do not change what loop tests read; logging and destructor hubs are cut from the recursion graph.'},
 }
 _PENDING = 'check under construction in this session (see DESIGN.md section 4); not claimed until its rule is admitted'
-NA = {pid: _PENDING for pid in ['C03','C08','C14','C17']}
+NA = {pid: _PENDING for pid in ['C03','C08','C14']}
 NA['C09'] = ('refinement of an ideal ordered map over operation histories with live iterators: its mechanisms are co-located with the mutations they protect inside single template functions; '
              'no sound structural necessary condition was found that is not either compiler-enforced or a frozen-fragment match (DESIGN.md section 4, C09)')
